@@ -16,6 +16,11 @@ def body(led):
     py_stiffeners.check_tstiff2d(led)
     from . import c12_conn
     c12_conn.body(led)
+    # the connection matrix reaches the assembly stiffness, tangent and internal force on every route (finalize True / False)
+    from . import py_assembly as A
+    A.check_matrix(led, 'calc_k0', ['fk0'], with_conn=True)
+    A.check_matrix(led, 'calc_kT', ['fkL_num', 'fkG_num'], with_conn=True, state=True)
+    A.check_matrix(led, 'calc_fint', ['calc_fint'], with_conn=True, state=True)
     from . import c12_kernels
     c12_kernels.body(led)
     if getattr(led, 'tier', 'quick') == 'thorough':
